@@ -42,7 +42,7 @@ structure LinkView where
   transport : Nat
 deriving Repr, DecidableEq
 
-/-- The filter of `getSolicitEntries` / `resolveMatch`: the directive's constraints admit the link. -/
+/-- The filter of `getSolicitEntries` / `resolveMatch`: the directive's constraints admitOk the link. -/
 def admits (d : Dir) (l : LinkView) : Bool :=
   (d.peer.isEmpty || d.peer = l.remote) && (d.transport = 0 || d.transport = l.transport)
 
